@@ -794,6 +794,10 @@ class Gen(object):
         if isinstance(n.func, ast.Attribute):
             obj = n.func.value
             meth = n.func.attr
+            if isinstance(obj, ast.Call) and isinstance(obj.func, ast.Name) and obj.func.id == 'super' \
+                    and meth in self.c.get('super_calls', {}):
+                # super().method(...): the parent's method through its own contract (self is passed implicitly)
+                return self.call_contract(self.c['super_calls'][meth], n, path, implicit_self=True)
             if isinstance(obj, ast.Call) and isinstance(obj.func, ast.Name) and obj.func.id == 'super':
                 key = 'super.' + meth
                 if key in self.c.get('dropped_calls', {}):
@@ -844,11 +848,16 @@ class Gen(object):
             raise Unsupported('append real to int list')
         return SList(z3.Store(l.arr, l.ln, v), l.ln + 1, l.et)
 
-    def call_contract(self, qual, n, path):
+    def call_contract(self, qual, n, path, implicit_self=False):
         c = self.registry[qual]
         names = list(c['args'])
         actual = {}
-        for nm, a in zip(names, n.args):
+        pos_names = names
+        if implicit_self and names and c['args'][names[0]] == 'self':
+            actual[names[0]] = SObject({k: (SFunc(v[1]) if isinstance(v, tuple) and v[0] == 'func' else None)
+                                        for k, v in c.get('self', {}).items()})
+            pos_names = names[1:]
+        for nm, a in zip(pos_names, n.args):
             actual[nm] = self.expr(a, path)
         # a function-valued argument selects the contract variant verified for that function
         for nm, v in list(actual.items()):
@@ -862,7 +871,12 @@ class Gen(object):
                 c = self.registry[qual]
         for kw in n.keywords:
             if kw.arg is None:
-                raise Unsupported('**kwargs at a call')
+                v = self.expr(kw.value, path)
+                kwname = [nm for nm in names if c['args'][nm] == 'kwargs']
+                if not isinstance(v, SKwargs) or not kwname:
+                    raise Unsupported('**kwargs at a call')
+                actual[kwname[0]] = v          # **kwargs passed through unchanged
+                continue
             actual[kw.arg] = self.expr(kw.value, path)
         for nm in names:
             if nm not in actual and c['args'][nm] == 'kwargs':
@@ -877,6 +891,13 @@ class Gen(object):
         for nm in names:
             if c['args'][nm] == 'real' and z3.is_expr(actual[nm]):
                 actual[nm] = to_real(actual[nm])
+        # ghost (universally quantified) inputs of the callee are chosen by the caller's contract
+        binds = self.c.get('ghost_bind', {}).get(qual, {})
+        for g, t in c.get('ghost_args', {}).items():
+            if g not in binds:
+                raise Unsupported('ghost argument %s of %s is not bound by the caller contract' % (g, qual))
+            v = self.sterm(ast.parse(binds[g], mode='eval').body, path.env)
+            actual[g] = to_real(v) if t == 'real' else v
         sub = Gen(None, c, self.registry, qual.rsplit('.', 1)[0])
         sub.specfuncs = dict(self.specfuncs)
         sub.entry_env = actual
